@@ -1,7 +1,8 @@
 """Registry: property id -> check function(res, tier, seed, replay)."""
-import p_mcb, p_comp, p_vec
+import p_mcb, p_comp, p_vec, p_approx
 REGISTRY = {}
 LEVEL = {}
 REGISTRY.update(p_mcb.REGISTRY)
 REGISTRY.update(p_comp.REGISTRY)
 REGISTRY.update(p_vec.REGISTRY)
+REGISTRY.update(p_approx.REGISTRY)
